@@ -8,16 +8,20 @@ hypotheses (NegInside, NegClear, NoCrossingAll, start<=end) evaluated on every r
 Python-supported Specs inputs, generated entity expressions (alone / in carriers / several per sentence) and
 noise; the predicate is evaluated in Python and by the Lean definition.  Shares lib/spancorr.py with C01."""
 from lib import spancorr
+from lib import dtextractcorr
 
 PROP = 'C12'
 LEVEL = 'proof'
-PROPS_MODULES = ['RTV.Props.C12']
+PROPS_MODULES = ['RTV.Props.C12', 'RTV.Props.C01DtExtract']
 GEN = ['chartables', 'preprocess']
 REQUIRED_THEOREMS = ['runs_disjoint', 'sweep_disjoint', 'sweep_disjoint_ip', 'sweep_disjoint_number',
                      'sweep_disjoint_number_noNeg', 'sweep_number_neg_counterexample', 'sweep_disjoint_percent',
                      'mergeAllTokens_disjoint', 'nwu_filter_no_containment', 'nwu_filter_keeps_nested', 'nwu_filter_sym_no_nesting',
                      'addTo_crossing_counterexample', 'addTo_disjoint_of_noCrossing', 'overlap_cover_meaning',
-                     'mergedExtract_disjoint', 'mergedExtract_disjoint_of_laminar', 'mergedExtract_crossing_counterexample', 'addTo_step_disjoint_iff']
+                     'mergedExtract_disjoint', 'mergedExtract_disjoint_of_laminar', 'mergedExtract_crossing_counterexample', 'addTo_step_disjoint_iff',
+                     # RTV.Props.C01DtExtract: sub-extractor tokens inside the text -> disjoint results
+                     'subextractor_results_ok', 'rangePairTok_inside', 'rangeLoop_mem', 'range_from_leading_blank',
+                     'tagInequality_inside', 'mergeMultipleDuration_inside']
 RULE = ('pipeline: every Python-supported Specs input through its own (model, culture) pair (thorough: through every '
         'registered pair of its recogniser) + per registered pair generated queries (entity texts of the Specs and '
         'universal literals, English templates; alone / carrier / several / blank-led / adjacent / with '
@@ -41,3 +45,4 @@ def correspond(ctx):
     spancorr.replay_witnesses(ctx, PROP)
     tasks = spancorr.pipeline(ctx, PROP)
     spancorr.unit_level(ctx, PROP, tasks)
+    dtextractcorr.run_light(ctx, PROP)
